@@ -11,9 +11,10 @@ SHA-256, real signing/verifying with loaded keys.
 import InToto.Model.Keys
 import InToto.Proofs.Json
 import InToto.Generated.Facts
+import InToto.Proofs.Injective
 
 namespace InToto.C19
-open InToto InToto.Json InToto.Keys
+open InToto InToto.Json InToto.Keys InToto.InjectiveProofs
 
 /-- what a successful load returns -/
 theorem load_ok (k : Kind) (f : Form) (s : Option (Str × List Str)) (l : Loaded) (h : load k f s = .ok l) :
@@ -91,5 +92,24 @@ theorem preimage_example :
     idPreimage (lit% "ed25519") (lit% "ed25519") (lit% "ab") [lit% "sha256", lit% "sha512"] =
       some (lit% "{\"keyid_hash_algorithms\":[\"sha256\",\"sha512\"],\"keytype\":\"ed25519\",\"keyval\":{\"public\":\"ab\"},\"scheme\":\"ed25519\"}") := by
   decide
+
+/-- C19 ("the identifier is determined by, and determines, the public description"): two key
+    descriptions with the same identifier preimage coincide in key type, scheme, hash algorithm
+    list and public half (the identifier is SHA-256 of this preimage; collision resistance of
+    SHA-256 is outside the model) -/
+theorem same_preimage_same_description (kt sc pub kt' sc' pub' : Str) (algs algs' : List Str) (s : Str)
+    (h : idPreimage kt sc pub algs = some s) (h' : idPreimage kt' sc' pub' algs' = some s) :
+    kt = kt' ∧ sc = sc' ∧ pub = pub' ∧ algs = algs' :=
+  idPreimage_injective kt sc pub kt' sc' pub' algs algs' s h h'
+
+/-- every key description has an identifier preimage -/
+theorem preimage_exists (kt sc pub : Str) (algs : List Str) : (idPreimage kt sc pub algs).isSome = true :=
+  idPreimage_isSome kt sc pub algs
+
+/-- C19: loads of one pair from a private and from a public form carry the same identifier -/
+theorem forms_same_identifier (k : Kind) (f f' : Form) (sch : Option (Str × List Str)) (l l' : Loaded)
+    (h : load k f sch = .ok l) (h' : load k f' sch = .ok l') (pub : Str) :
+    idPreimage l.keytype l.scheme pub l.idAlgs = idPreimage l'.keytype l'.scheme pub l'.idAlgs :=
+  idPreimage_forms_agree k f f' sch l l' h h' pub
 
 end InToto.C19
